@@ -122,7 +122,11 @@ def _aggregate(ctx, pydrex, case):
     scale = max(float(np.abs(S.olivine).max()), float(np.abs(S.enstatite).max()))
     tol = 1e-9 * scale
     try:
-        C = np.asarray(mn.voigt_averages(minerals, list(phases), list(fracs), S))
+        if case["custom"]:
+            C = np.asarray(mn.voigt_averages(minerals, list(phases), list(fracs), S))
+        else:
+            # default argument: the built-in tensors, whatever custom instances earlier calls were given
+            C = np.asarray(mn.voigt_averages(minerals, list(phases), list(fracs)))
     except Exception as e:
         ctx.case(case, nontrivial=False)
         ctx.check("returns", False, case, key=f"raises/{type(e).__name__}", exc=str(e)[:200])
